@@ -55,6 +55,16 @@ type c18Nest struct {
 	Y string `dials:"y_val"`
 }
 
+type c18Limits struct {
+	Burst int `dials:"burst"`
+}
+
+// c18Server: a leaf followed by a struct-typed sibling (two levels below the config)
+type c18Server struct {
+	Port   int       `dials:"port"`
+	Limits c18Limits `dials:"limits"`
+}
+
 type c18Scn struct {
 	mu          sync.Mutex
 	verifyCalls []c18Verify
@@ -92,6 +102,7 @@ type c18Cfg struct {
 	Phi        []string      `dials:"phi"`
 	Chi        uint16        `dials:"chi"`
 	Nest       c18Nest       `dials:"nest"`
+	Server     c18Server     `dials:"server"`
 	// a set: files spell it as a list (ez adds the set-to-slice conversion unless told not to)
 	Tags map[string]struct{} `dials:"tags"`
 	// two optional settings whose defaults may point at one variable; only the file sets them
@@ -143,6 +154,7 @@ func (c *c18Cfg) Verify() error {
 var c18Leaves = []struct{ key, env, flag string }{
 	{"alpha", "ALPHA", "alpha"}, {"beta", "BETA", "beta"}, {"gamma", "GAMMA", "gamma"}, {"delta", "DELTA", "delta"},
 	{"eps", "EPS", "eps"}, {"phi", "PHI", "phi"}, {"chi", "CHI", "chi"}, {"nest.x_val", "NEST_X_VAL", "nest-x_val"}, {"nest.y_val", "NEST_Y_VAL", "nest-y_val"},
+	{"server.port", "SERVER_PORT", "server-port"}, {"server.limits.burst", "SERVER_LIMITS_BURST", "server-limits-burst"},
 }
 
 // c18Set assigns leaf k of cfg the value numbered n; returns its text form and the JSON-able file value.
@@ -172,9 +184,15 @@ func c18Set(cfg *c18Cfg, k int, n int) (text string, fileVal any) {
 	case 7:
 		cfg.Nest.X = n
 		return fmt.Sprint(n), n
-	default:
+	case 8:
 		cfg.Nest.Y = fmt.Sprintf("y%d", n)
 		return cfg.Nest.Y, cfg.Nest.Y
+	case 9:
+		cfg.Server.Port = n
+		return fmt.Sprint(n), n
+	default:
+		cfg.Server.Limits.Burst = n
+		return fmt.Sprint(n), n
 	}
 }
 
